@@ -88,6 +88,8 @@ M = {
  "C03-m4-unreadable-is-fine": ("C03", "unreadable certificate treated as unpinned-and-fine again", [(CS,
     "                if cert is None:\n                    # A certificate we cannot read",
     "                if cert is None and False:\n                    # A certificate we cannot read", 2)]),
+ "C03-m5-host-not-idna-prepared": ("C03", "non-ASCII host names keyed as written again (the original defect)", [("src/nauyaca/utils/url.py",
+    "        if prepared and all(c.isalnum() or c in \"-._\" for c in prepared):\n            hostname = prepared\n", "", 1)]),
  # ---- C04 ---------------------------------------------------------------
  "C04-m1-unknown-peer": ("C04", "chain consulted with 'unknown' instead of the peer address (gemini)", [(SP,
     '''        client_ip = self.peer_name[0] if self.peer_name else "unknown"
